@@ -28,8 +28,16 @@ fn generate_char_fn_ranges(f: fn(char) -> bool) -> Vec<(u32, u32)> {
                 current_range_start = Some(i);
             }
         } else if let Some(current_range_start) = current_range_start.take() {
-            ranges.push((current_range_start, i - 1));
+            // The previous scalar value is `i - 1`, except right after the surrogate gap
+            // (U+D800..=U+DFFF are not `char`s and are skipped above)
+            let current_range_end = if i == 0xE000 { 0xD7FF } else { i - 1 };
+            ranges.push((current_range_start, current_range_end));
         }
+    }
+
+    // A range that reaches `char::MAX` is still open here
+    if let Some(current_range_start) = current_range_start {
+        ranges.push((current_range_start, u32::from(char::MAX)));
     }
 
     ranges
